@@ -33,7 +33,9 @@ def sysreq_sig(case, idx, verdict):
 
 
 def check(ctx):
-    vlib.prove(ctx, PROPS)
+    # body of Routes::process_updates (both loops) regenerated from ca/roa.rs; C05Src: = the model's processUpdates
+    vlib.translate(ctx, [("pure_fns:C05", "PureFns.lean")])
+    vlib.prove(ctx, PROPS + ["KrillModel.Props.C05Src"])
     found = False
     if vlib.build_harness(ctx, ["pure", "system"]):
         n = 30000 if ctx.tier == "quick" else 400000
@@ -96,5 +98,5 @@ MANIFEST = {
             "found here and are fixed; F-C05-1 (ca_child_update runs one request as several commands) is open, replayed on the real "
             "CaManager by the system stream. An entitlement update to the empty set is accepted by design (C02). Repository content is not "
             "touched by this stream (no signer): 'leaves the repository untouched' rests on 'no event' plus C07/C01.",
-    "technique": "Lean 4 proof (induction over deltas, iff-characterisations) + correspondence check (seeded + exhaustive small scope)",
+    "technique": "Lean 4 proof (induction over deltas, iff-characterisations) + source translator (body of Routes::process_updates, both loops = the model's processUpdates: gen_process_updates_eq_model) + correspondence check (seeded + exhaustive small scope)",
 }
